@@ -482,7 +482,7 @@ func (r *c15Run) exec(op c15Op) (opTerm string, res string) {
 		r.watchToken(op.Token)
 		dead := r.deadList()
 		err := r.send(&erc20types.MsgConvertCoin{Coin: sdk.Coin{Denom: op.Token, Amount: sdkmath.NewInt(1)}, Receiver: r.w.user.Hex(), Sender: userAcc.String()})
-		return App("OpConvert", r.tok(op.Token), dead), class(err)
+		return App("OpConvert", "true", r.tok(op.Token), dead), class(err)
 	case "converc20":
 		if !common.IsHexAddress(op.Token) {
 			return "OpEnv", "Ok"
@@ -490,7 +490,7 @@ func (r *c15Run) exec(op c15Op) (opTerm string, res string) {
 		r.watchToken(op.Token)
 		dead := r.deadList()
 		err := r.send(&erc20types.MsgConvertERC20{ContractAddress: op.Token, Amount: sdkmath.NewInt(1), Receiver: userAcc.String(), Sender: r.w.user.Hex()})
-		return App("OpConvert", r.tok(op.Token), dead), class(err)
+		return App("OpConvert", "false", r.tok(op.Token), dead), class(err)
 	case "setparams":
 		p := k.GetParams(r.ctx)
 		p.EnableErc20 = op.Enable
@@ -667,6 +667,10 @@ func c15Scripts(w *c15World) []c15Case {
 			t("expimp", ""), t("kill", "@coin:acoin"), t("convcoin", "acoin"), t("expimp", ""), t("toggle", "acoin"), t("regcoin", "acoin"), t("toggle", "acoin"), t("expimp", "")}},
 		{Stream: "boundary:dead-contract-address-funded-again", Ops: []c15Op{t("regerc20", A), {Kind: "kill", Token: A, Auth: true, Refund: true}, t("converc20", A), t("regerc20", A),
 			t("mint", "acoin"), t("regcoin", "acoin"), {Kind: "kill", Token: "@coin:acoin", Auth: true, Refund: true}, t("convcoin", "acoin"), t("regcoin", "acoin")}},
+		// a coin merely NAMED like the address of a pair whose contract is gone: ConvertCoin refuses it before it looks at
+		// the contract (fix 1aaf795), so the pair stays until a conversion that names the pair itself prunes it
+		{Stream: "boundary:dead-contract-named-by-a-lookalike-coin", Ops: []c15Op{t("regerc20", "0x"+H), {Kind: "kill", Token: "0x" + H, Auth: true, Refund: true}, t("convcoin", H),
+			t("toggle", H), t("convcoin", H), t("toggle", "0x"+H), t("convcoin", erc20types.CreateDenom(w.reserved.String())), t("regerc20", "0x"+H)}},
 		{Stream: "boundary:disabled-pair-dead-contract", Ops: []c15Op{t("regerc20", A), t("toggle", A), t("kill", A), t("converc20", A), t("convcoin", eA), t("toggle", lowA),
 			t("converc20", "0X"+strings.ToUpper(lowA)), t("regerc20", A), t("toggle", A), t("toggle", eA)}},
 		{Stream: "boundary:module-disabled", Ops: []c15Op{t("regerc20", A), t("mint", "bcoin"), en(false), t("regcoin", "bcoin"), t("regerc20", Bc), t("toggle", eA), t("kill", A),
